@@ -200,10 +200,13 @@ Inductive event :=
 | Close
 | Drain
 | InternalWatch (h n : N)        (* the goroutine started by waitForTxn(h, n) calls watchTx *)
-| PollLost (b c : N) (newtx : bool).
+| PollLost (b c : N) (newtx : bool)
                                  (* an iteration of watchLoop that read block b and confirmed nonce c while no
                                     check is in flight but checkLoop is not (yet) back in its select: the
                                     non-blocking send on blockUpdate takes the default branch *)
+| GiveUp (w : N).                (* the caller behind waiter w stops waiting (WaitForReceipt's ctx ends and it
+                                    returns ctx.Err()): no shared state is touched -- the channel stays
+                                    registered and will still be answered, into its buffer *)
 
 Definition proc (v : variant) (s : mon) (c n h : N) (r : reply) (fb : option reply) : mon :=
   let s := add_answer s (c, h, r) in
@@ -323,6 +326,7 @@ Definition step (v : variant) (s : mon) (e : event) : mon :=
          closedch := closedch s; pending := pending s; internal := internal s; flagged := flagged s; next := next s;
          delivered := delivered s; watchers := watchers s; refused := refused s; sent := sent s;
          confs := confs s ++ [c]; answers := answers s; panicked := panicked s |}
+  | GiveUp _ => s
   | Close =>
       {| wait := wait s; closed := true; wl_exited := wl_exited s; drained := drained s;
          last_block := last_block s; last_conf := last_conf s; chk := chk s; closedch := closedch s;
